@@ -66,8 +66,6 @@ def build_cases(ctx, stream: str, n: int) -> list[dict]:
 def attribute(plan: dict, mism: list[str]) -> str | None:
     f = plan["features"]
     text = " | ".join(mism)
-    if f["cookie_param_supplied"] and "cookies" in text:
-        return "F11"
     if f["multi_content"] and f["has_query_or_header"] and ("query" in text or "headers" in text):
         return "F12"
     if f["multi_content"] and "One of the content-type parameters must be provided" in text and f.get("optional_body_omitted"):
